@@ -96,7 +96,15 @@ impl FileInfo {
         let file = self.random.as_mut().expect("Should have file");
         file.seek(SeekFrom::Start(offset))?;
         let mut buffer: Vec<u8> = std::iter::repeat_n(0_u8, self.rec_len).collect();
-        let bytes_read = file.read(&mut buffer)?;
+        // a single read might return fewer bytes than are available
+        let mut bytes_read: usize = 0;
+        while bytes_read < buffer.len() {
+            let n = file.read(&mut buffer[bytes_read..])?;
+            if n == 0 {
+                break;
+            }
+            bytes_read += n;
+        }
         // zero out missing bytes
         for item in buffer.iter_mut().skip(bytes_read) {
             *item = 0;
